@@ -44,13 +44,43 @@ pub fn run_cli(spec_path: &Path, name: &str, out: &Path, examples: bool, derives
     if let Some(d) = cwd {
         c.current_dir(d);
     }
-    let o = c.output().expect("cannot run libninja CLI");
-    CliOut {
-        code: o.status.code(),
-        signal: o.status.signal(),
-        stdout: String::from_utf8_lossy(&o.stdout).to_string(),
-        stderr: String::from_utf8_lossy(&o.stderr).to_string(),
+    // a generation that does not return is a finding (C01), not a reason for the check to hang: 120 s limit
+    use std::io::Read;
+    let mut child = c.stdin(std::process::Stdio::null()).stdout(std::process::Stdio::piped()).stderr(std::process::Stdio::piped()).spawn().expect("cannot run libninja CLI");
+    let mut so = child.stdout.take().unwrap();
+    let mut se = child.stderr.take().unwrap();
+    let t1 = std::thread::spawn(move || {
+        let mut b = Vec::new();
+        let _ = so.read_to_end(&mut b);
+        b
+    });
+    let t2 = std::thread::spawn(move || {
+        let mut b = Vec::new();
+        let _ = se.read_to_end(&mut b);
+        b
+    });
+    let start = std::time::Instant::now();
+    let mut timed_out = false;
+    let status = loop {
+        match child.try_wait() {
+            Ok(Some(s)) => break s,
+            Ok(None) => {
+                if start.elapsed() > std::time::Duration::from_secs(120) {
+                    let _ = child.kill();
+                    timed_out = true;
+                    break child.wait().unwrap();
+                }
+                std::thread::sleep(std::time::Duration::from_millis(2));
+            }
+            Err(e) => panic!("wait: {}", e),
+        }
+    };
+    let stdout = String::from_utf8_lossy(&t1.join().unwrap()).to_string();
+    let mut stderr = String::from_utf8_lossy(&t2.join().unwrap()).to_string();
+    if timed_out {
+        stderr.push_str("\nLNVERIF-TIMEOUT: no exit within 120 s");
     }
+    CliOut { code: status.code(), signal: status.signal(), stdout, stderr }
 }
 
 pub fn read_tree(dir: &Path) -> Tree {
